@@ -44,6 +44,10 @@ def config(rng, t, st, methods):
         params = [base[0], base[1], rng.choice([200.0, 700.0, 64.0]), base[3]]
         T = rng.choice([4, 10, 40])
     r = rng.choice([0.0, 0.0, 0.0, -1.0, 1e-2, 0.5, 5.0])
+    if rng.random() < 0.06:
+        # "no limit" (u64::MAX) ended by a threshold the first iteration already meets: one iteration, every thread count
+        T = 2 ** 64 - 1
+        r = 1e9
     draws = draws_for(rng, t, st) if method != "full" else None
     return method, params, T, r, draws
 
@@ -81,6 +85,16 @@ def generate(rng, tier, n, methods=METHODS):
             t, st = hidden_deal_tree(rng, outcomes=rng.choice([8, 12]), depth=4, actions=3)
             cases.append(build(cid, t, st, "full", rng.choice(["vanilla", "dcfr"]), rng.choice([40, 60]), 0.0, None,
                                [5, 7, 12], 4, rng))
+            cases[-1].meta["contention"] = True
+            cid += 1
+    else:
+        # the same for the chance-sampled solver: two identical subgames behind a coin (the draw does not matter), hidden
+        # moves of one player, then the other player moves blind: her few infosets span every work item of the pass
+        from ..solvers import blind_tree
+        for _ in range(1 if tier != "thorough" else 6):
+            t, st = blind_tree(rng, rng.choice([6, 7]), 3)
+            cases.append(build(cid, t, st, "sampled", rng.choice(["vanilla", "dcfr"]), rng.choice([30, 40]), 0.0, draws_for(rng, t, st),
+                               [5, 8, 12], 4, rng))
             cases[-1].meta["contention"] = True
             cid += 1
     while len(cases) < n:
